@@ -8,7 +8,7 @@ use crate::generators::progen::{GenCfg, gen_program};
 use crate::model::interp::End;
 use serde_json::{Value, json};
 
-fn cfg_for(_id: &str, tier: Tier) -> GenCfg {
+fn cfg_for(own_id: &str, tier: Tier) -> GenCfg {
   // the three behavioural properties share one compiler, hence one set of excluded shapes
   let excluded = |_: &str, flag: &str| excluded("C01", flag) || excluded("C03", flag) || excluded("C04", flag);
   let id = "";
@@ -20,7 +20,7 @@ fn cfg_for(_id: &str, tier: Tier) -> GenCfg {
   }
   c.unboxable_recursive_enum = !excluded(id, "unboxable_recursive_enum");
   c.param_swap_tail_calls = !excluded(id, "param_swap_tail_calls");
-  c.big_ints = !excluded(id, "big_ints");
+  c.big_ints = !crate::engine::findings::excluded(own_id, "big_ints");
   c.single_variant_pointer_enum = !excluded(id, "single_variant_pointer_enum");
   c.rec_call_in_short_circuit = !excluded(id, "rec_call_in_short_circuit");
   c.tuple_typed_field = !excluded(id, "tuple_typed_field");
@@ -30,6 +30,10 @@ fn cfg_for(_id: &str, tier: Tier) -> GenCfg {
   c.fuel_in_base_case = !excluded(id, "fuel_in_base_case");
   c.effects_in_rec_call_args = !excluded(id, "effects_in_rec_call_args");
   c.derived_induction_args = !excluded(id, "derived_induction_args");
+  c.possibly_zero_divisor = !excluded(id, "possibly_zero_divisor");
+  // backend-difference findings only restrict the differential check that owns them
+  c.neg_division = !crate::engine::findings::excluded(own_id, "neg_division");
+  c.single_field_struct_payload = !crate::engine::findings::excluded(own_id, "single_field_struct_payload");
   // these are ON only when no recorded finding asks for exclusion *and* the property wants them
   c.string_escapes = false;
   c.non_ascii_strings = false;
@@ -149,6 +153,9 @@ impl Prop for C01 {
         if matches!(w.end.as_str(), "compile-error" | "link-error") {
           return Outcome::discarded("module-not-instantiable(C03)");
         }
+        if w.end == "timeout" {
+          return Outcome::discarded("execution-timeout(inconclusive)");
+        }
         let detail = |what: &str| format!("{what}\nreference: end={} lines={:?}\nwasm:      end={} lines={:?}\n{}", end_str(&reference.end), short_lines(&reference.lines), exec_str(w), short_lines(&w.lines), describe(&mods));
         if w.lines != reference.lines {
           out.fail("wasm-vs-reference/printed-lines-differ", detail(&format!("printed lines differ: {}", first_diff(&reference.lines, &w.lines))));
@@ -238,6 +245,10 @@ impl Prop for C04 {
         }
         if matches!(w.end.as_str(), "compile-error" | "link-error") || t.end == "syntax-error" {
           return Outcome::discarded("artefact-not-loadable(C03)");
+        }
+        if w.end == "timeout" || t.end == "timeout" {
+          // e.g. the TypeScript backend's `==` on a deeply shared structure stringifies it (exponential)
+          return Outcome::discarded("execution-timeout(inconclusive)");
         }
         let detail = |what: &str| format!("{what}\nreference: end={}\nwasm: end={} lines={:?}\nts:   end={} lines={:?}\n{}", end_str(&reference.end), exec_str(w), short_lines(&w.lines), exec_str(t), short_lines(&t.lines), describe(&mods));
         if w.lines != t.lines {
